@@ -16,13 +16,13 @@ import (
 const (
 	CtxLoop   = "loop"
 	CtxConstr = "construction"
-	CtxAPI    = "api"  // exported entry point on the caller's goroutine
-	CtxGo     = "go"   // target of a go statement / timer callback
+	CtxAPI    = "api" // exported entry point on the caller's goroutine
+	CtxGo     = "go"  // target of a go statement / timer callback
 )
 
 type CtxInfo struct {
-	Ctx map[*Func]map[string]*CallEdge // function -> context -> edge through which it was reached (nil for roots)
-	Root map[*Func]map[string]*Func     // function -> context -> root function
+	Ctx       map[*Func]map[string]*CallEdge // function -> context -> edge through which it was reached (nil for roots)
+	Root      map[*Func]map[string]*Func     // function -> context -> root function
 	LoopTasks []*Func
 }
 
@@ -219,10 +219,10 @@ func (p *Prog) lockKey(call *ast.CallExpr) (key string, op string) {
 }
 
 type LockAnalysis struct {
-	p  *Prog
-	f  *Func
-	g  *CFG
-	in map[*Block]map[string]bool
+	p        *Prog
+	f        *Func
+	g        *CFG
+	in       map[*Block]map[string]bool
 	deferred map[string]bool
 }
 
